@@ -100,7 +100,7 @@ def gen_scenario(rng, sid, pf):
             "lazy": rng.random() < pf.p_lazy,
             "aps": rng.random() < pf.p_aps,
             "init": rng.random() < pf.p_init,
-            "runner": rng.choice("POU") if rng.random() < pf.p_runner else None,
+            "runner": rng.choice("POUUM") if rng.random() < pf.p_runner else None,
             "closer": rng.random() < pf.p_closer,
             "proc": None,
             "methods": [],
@@ -117,7 +117,7 @@ def gen_scenario(rng, sid, pf):
     for _ in range(nprocs):
         types.append({"ifaces": [], "naming": True, "qual": False, "primary": False,
                       "lazy": rng.random() < 0.15, "aps": False, "init": rng.random() < 0.3, "runner": None,
-                      "closer": False, "proc": rng.choice("POU"), "methods": [], "fields": [], "cfields": []})
+                      "closer": False, "proc": rng.choice("POUUM"), "methods": [], "fields": [], "cfields": []})
     comps = []
     used_names = set()
     nbare = rng.randint(*pf.n_bare)
@@ -600,7 +600,7 @@ def gen_go(scn):
         if cls in ("P", "O"):
             out.append("\twx.OrdM")
             binds.append("t.OrdM.BindOrd(&t.b)")
-        if cls == "P":
+        if cls in ("P", "M"):        # M: the Priority() marker WITHOUT Order(): such a participant is not Ordered
             out.append("\twx.PrioM")
         for k, p in enumerate(t["fields"]):
             if not emb:
@@ -737,6 +737,11 @@ def runtime_cfg(scn, facts, lookups="all", shared_names=False):
             for v in (n.swapcase(), n.lower(), n.upper()):
                 if v not in known and v not in extra and len(extra) < 2:
                     extra.append(v)
+        for ci, c in enumerate(scn["comps"]):
+            # the type-derived name of a component that announces another name: nobody is registered under it
+            tid = "%s/%s" % (PKG, go_type_name(scn["id"], c["type"]))
+            if c["name"] and tid not in known and tid not in extra and len(extra) < 3:
+                extra.append(tid)
         extra.append("zz-nobody-%d" % scn["id"])
         for i, v in enumerate(extra):
             rank[v] = len(srt) + i
@@ -790,7 +795,7 @@ def coq_point(scn, p, rank, ids):
 
 
 def coq_pclass(cls, o):
-    return {"P": "(Prio %s)" % vlib.coq_z(o), "O": "(Ord %s)" % vlib.coq_z(o), "U": "Unord"}[cls]
+    return {"P": "(Prio %s)" % vlib.coq_z(o), "O": "(Ord %s)" % vlib.coq_z(o), "U": "Unord", "M": "Unord"}[cls]
 
 
 def coq_scenario(scn, facts, oracle=None):
